@@ -134,8 +134,19 @@ def make_adapter(comp_name, idx, beh, ctx):
     class ProbeIo(AdapterIo):
         async def setup(self, adapter, raise_interrupt):
             ctx["raisers"].setdefault(comp_name, raise_interrupt)
+            if beh.get("io_returns") and idx >= 1:
+                # an io whose setup returns as soon as it is set up (like TcpIo / EpicsIo / ZeroMqPushIo), next to the
+                # first adapter's io, which serves until it is cancelled (like HttpIo)
+                ctx["trace"].log("io-setup-returned", comp=comp_name, adapter=idx)
+                return
             if ctx.get("adapter_wait", True):
-                await asyncio.Event().wait()
+                try:
+                    await asyncio.Event().wait()
+                except asyncio.CancelledError:
+                    # the serving io of this adapter is shut down while the simulation runs (legitimately: StopComponent)
+                    if not ctx.get("teardown"):
+                        ctx["trace"].log("io-cancelled", comp=comp_name, adapter=idx, real=ctx["loop"].now_ns() if ctx.get("loop") else None)
+                    raise
 
     return AdapterContainer(ProbeAdapter(), ProbeIo())
 
@@ -450,6 +461,7 @@ def run_scenario(scn, *, bus="sync", chooser=None, seed=0, max_steps=None, use_s
         loop.step_hooks.append(check)
         loop.on_stall = on_stall
         info["stop"] = await stop_fut
+        ctx["teardown"] = True   # whatever is cancelled from here on is cancelled by the harness (or by run_virtual's clean-up)
         loop.step_hooks.remove(check)
         loop.on_stall = None
         info["end_real"] = loop.now_ns()
